@@ -462,6 +462,231 @@ async fn attach_race_case(rep: &mut Report, rx_t: SocketType, tx_t: SocketType, 
   }
 }
 
+#[derive(Clone, Copy, Debug, PartialEq, Eq, Hash)]
+enum Gap {
+  /// connect() and close() polled together (join!): the core handles both before the connecter's first poll
+  Joined,
+  /// close() right after connect() returned
+  Immediate,
+  /// a few hundred microseconds .. milliseconds: inside the first attempt / the first back-off
+  Micros(u64),
+  /// after several retry cycles
+  Millis(u64),
+}
+
+static DEAD_PORT_COUNTER: AtomicUsize = AtomicUsize::new(0);
+
+/// A tcp port outside the kernel's ephemeral range (so that no other process of this run is handed it by bind(:0)) on
+/// which nothing listens right now.
+async fn dead_tcp_port() -> Option<u16> {
+  for _ in 0..50 {
+    let k = DEAD_PORT_COUNTER.fetch_add(1, Ordering::SeqCst);
+    let port = 10_000 + ((std::process::id() as usize * 37 + k * 101) % 20_000) as u16;
+    if tokio::net::TcpStream::connect(("127.0.0.1", port)).await.is_err() {
+      return Some(port);
+    }
+  }
+  None
+}
+
+/// (closeonly) close() alone - no term() - must leave nothing of that socket running: no actor of the context counted
+/// alive, no socket registered, no tokio task more than before, and nothing that still tries to reach the targets the
+/// closed socket had been connecting to (observed by starting to listen there after the close).
+async fn close_only_case(rep: &mut Report, rng: &mut Rng, flavour: &'static str, st: SocketType, tr: Transport, targets: usize, gap: Gap, ivl: i32, with_live_peer: bool) {
+  let tasks0 = alive_tasks();
+  let ctx = util::new_ctx();
+  let peer_ctx = util::new_ctx();
+  let s = ctx.socket(st).unwrap();
+  util::set_i32(&s, opt::RECONNECT_IVL, ivl).await;
+  util::set_i32(&s, opt::LINGER, 0).await;
+  if st == SocketType::Sub {
+    let _ = s.set_option(opt::SUBSCRIBE, "").await;
+  }
+  let cfg = format!("{} {} over {} x{} dead target(s), gap {:?}, RECONNECT_IVL {} ms{}", flavour, util::socket_type_name(st), tr.name(), targets, gap, ivl, if with_live_peer { ", plus one live peer" } else { "" });
+  // an optional live peer, so that the socket also owns a session when it is closed
+  let mut live_peer = None;
+  if with_live_peer {
+    let pt = match st {
+      SocketType::Push => SocketType::Pull,
+      SocketType::Pull => SocketType::Push,
+      SocketType::Dealer => SocketType::Router,
+      SocketType::Router => SocketType::Dealer,
+      SocketType::Req => SocketType::Rep,
+      SocketType::Sub => SocketType::Pub,
+      _ => SocketType::Sub,
+    };
+    let p = peer_ctx.socket(pt).unwrap();
+    if let Ok(ep) = util::bind_fresh(&p, if tr == Transport::Inproc { Transport::Tcp } else { tr }).await {
+      let _ = s.connect(&ep).await;
+      tokio::time::sleep(Duration::from_millis(40)).await;
+    }
+    live_peer = Some(p);
+  }
+  // dead targets
+  let mut eps: Vec<String> = vec![];
+  for k in 0..targets {
+    match tr {
+      Transport::Tcp => match dead_tcp_port().await {
+        Some(p) => eps.push(format!("tcp://127.0.0.1:{}", p)),
+        None => {
+          rep.inconclusive("no dead tcp port found".to_string());
+          return;
+        }
+      },
+      _ => eps.push(format!("ipc://{}/dead-{}-{}", util::ipc_dir(), DEAD_PORT_COUNTER.fetch_add(1, Ordering::SeqCst), k)),
+    }
+  }
+  let t0 = Instant::now();
+  let closed = tokio::time::timeout(util::scaled(Duration::from_secs(15)), async {
+    match gap {
+      Gap::Joined => {
+        let (last, first) = eps.split_last().unwrap();
+        for ep in first {
+          let _ = s.connect(ep).await;
+        }
+        let (_a, _b) = tokio::join!(s.connect(last), s.close());
+      }
+      Gap::Immediate => {
+        for ep in &eps {
+          let _ = s.connect(ep).await;
+        }
+        let _ = s.close().await;
+      }
+      Gap::Micros(us) => {
+        for ep in &eps {
+          let _ = s.connect(ep).await;
+        }
+        tokio::time::sleep(Duration::from_micros(us)).await;
+        let _ = s.close().await;
+      }
+      Gap::Millis(ms) => {
+        for ep in &eps {
+          let _ = s.connect(ep).await;
+        }
+        tokio::time::sleep(Duration::from_millis(ms)).await;
+        let _ = s.close().await;
+      }
+    }
+  })
+  .await;
+  let close_time = t0.elapsed();
+  rep.case(&("closeonly", flavour, util::socket_type_name(st), tr, targets, gap, ivl, with_live_peer), true);
+  rep.count("closeonly_cases", 1);
+  let gap_kind = match gap {
+    Gap::Joined => "joined",
+    Gap::Immediate => "immediate",
+    Gap::Micros(_) => "micros",
+    Gap::Millis(_) => "millis",
+  };
+  if closed.is_err() {
+    rep.violation(format!("close_did_not_return|closeonly|{}", gap_kind), format!("close() had not returned after 15 s ({})", cfg), json!({"config": cfg}));
+    let _ = tokio::time::timeout(util::scaled(Duration::from_secs(15)), ctx.term()).await;
+    return;
+  }
+  rep.max("max:closeonly_close_ms", close_time.as_millis() as u64);
+  // (a) start listening where the closed socket had been connecting: nobody may show up
+  let mut visitors: Vec<String> = vec![];
+  let mut listeners = vec![];
+  for ep in &eps {
+    let l = if let Some(port) = ep.strip_prefix("tcp://127.0.0.1:") { vh::rawpeer::RawListener::bind_tcp_port(port.parse().unwrap()).await.map(|x| x.0) } else { vh::rawpeer::RawListener::bind_unix(ep.strip_prefix("ipc://").unwrap()).await.map(|x| x.0) };
+    match l {
+      Ok(l) => listeners.push((ep.clone(), l)),
+      Err(e) => rep.inconclusive(format!("probe listener on {}: {}", ep, e)),
+    }
+  }
+  let watch = util::scaled(Duration::from_millis(if ivl <= 50 { 700 } else { 1200 }));
+  for (ep, l) in &listeners {
+    if let Ok(Ok(mut c)) = tokio::time::timeout(watch, l.accept()).await {
+      let (bytes, eof) = c.read_for(util::scaled(Duration::from_millis(500)), 10).await;
+      if !bytes.is_empty() {
+        // the closed socket went ahead and spoke ZMTP on a connection opened after close() had returned
+        visitors.push(format!("{} <- connection sending {}", ep, vh::report::hex(&bytes)));
+      } else if eof || c.wait_closed(util::scaled(Duration::from_millis(1500))).await.is_some() {
+        // a connect() that was in flight when the socket closed and is dropped without a byte: asynchronous teardown
+        // inside the grace the gauges below get as well - counted, not judged
+        rep.count("closeonly_silent_aborted_connects_after_close", 1);
+      } else {
+        visitors.push(format!("{} <- silent connection held open for 2 s", ep));
+      }
+    }
+  }
+  if !visitors.is_empty() {
+    rep.violation(format!("closed_socket_still_connecting|{}|{}", tr.name(), gap_kind), format!("after close() returned ({:?}) something of the closed socket connected to a listener started afterwards on its old target: {:?} ({})", close_time, visitors, cfg), json!({"config": cfg, "visitors": visitors}));
+  }
+  drop(listeners);
+  // (b) gauges: give asynchronous teardown 3 s
+  let t1 = Instant::now();
+  let (mut la, mut regs, mut tasks1) = (verif::live_actors(&ctx), verif::registered_sockets(&ctx), alive_tasks());
+  let peer_tasks_allow = if live_peer.is_some() { 16 } else { 0 };
+  while (la > 0 || regs > 0 || tasks1 > tasks0 + peer_tasks_allow) && t1.elapsed() < util::scaled(Duration::from_secs(3)) {
+    tokio::time::sleep(Duration::from_millis(50)).await;
+    la = verif::live_actors(&ctx);
+    regs = verif::registered_sockets(&ctx);
+    tasks1 = alive_tasks();
+  }
+  if la > 0 {
+    rep.violation(format!("actors_alive_after_close|{}|{}", tr.name(), gap_kind), format!("{} actor(s) of the context still counted alive 3 s after close() of its only socket returned ({})", la, cfg), json!({"config": cfg, "live_actors": la, "registered_sockets": regs}));
+  }
+  if regs > 0 {
+    rep.violation(format!("socket_still_registered_after_close|{}", gap_kind), format!("{} socket(s) still registered with the context 3 s after close() returned ({})", regs, cfg), json!({"config": cfg}));
+  }
+  if live_peer.is_none() && tasks1 > tasks0 {
+    rep.violation(format!("tasks_left_running_after_close|{}|{}", tr.name(), gap_kind), format!("{} tokio task(s) more than before are still alive 3 s after close() of the only socket returned ({})", tasks1 - tasks0, cfg), json!({"config": cfg, "before": tasks0, "after": tasks1}));
+  }
+  // (c) operations on the closed socket fail promptly, term() is quick
+  let r = tokio::time::timeout(util::scaled(Duration::from_secs(2)), s.send(util::msg(b"x".to_vec(), false))).await;
+  if r.is_err() && !matches!(st, SocketType::Pull | SocketType::Sub) {
+    rep.violation(format!("send_after_close_hangs|{}", util::socket_type_name(st)), format!("send() on a closed {} did not return within 2 s ({})", util::socket_type_name(st), cfg), json!({"config": cfg}));
+  }
+  let tt = Instant::now();
+  if tokio::time::timeout(util::scaled(Duration::from_secs(15)), ctx.term()).await.is_err() {
+    rep.violation(format!("term_after_close_did_not_return|{}", gap_kind), format!("term() after close() had not returned after 15 s ({})", cfg), json!({"config": cfg}));
+  } else if tt.elapsed() > util::scaled(Duration::from_secs(9)) {
+    rep.violation(format!("term_after_close_only_through_internal_timeout|{}", gap_kind), format!("term() after close() took {:?} ({})", tt.elapsed(), cfg), json!({"config": cfg}));
+  }
+  if let Some(p) = live_peer {
+    let _ = p.close().await;
+  }
+  let _ = tokio::time::timeout(util::scaled(Duration::from_secs(15)), peer_ctx.term()).await;
+  let _ = rng;
+}
+
+fn close_only_layer(rep: &mut Report, rng: &mut Rng, args: &Args) {
+  let n = args.get_usize("cases", if args.thorough() { 480 } else { 96 });
+  let rts: [(&'static str, tokio::runtime::Runtime); 2] = [("current-thread", tokio::runtime::Builder::new_current_thread().enable_all().build().unwrap()), ("4-workers", util::runtime(4))];
+  let types = [SocketType::Push, SocketType::Dealer, SocketType::Req, SocketType::Sub, SocketType::Router, SocketType::Pull];
+  for i in 0..n {
+    if !args.mine(i) {
+      continue;
+    }
+    let (fl, rt) = &rts[i % 2];
+    let st = types[(i / 2) % types.len()];
+    let tr = if (i / 12) % 3 == 2 { Transport::Ipc } else { Transport::Tcp };
+    let gap = match (i / 4) % 4 {
+      0 => Gap::Joined,
+      1 => Gap::Immediate,
+      2 => Gap::Micros(rng.range(0, 3000) as u64),
+      _ => Gap::Millis(*rng.pick(&[5u64, 30, 120])),
+    };
+    let targets = rng.range(1, 3);
+    let ivl = *rng.pick(&[10, 50, 100]);
+    let live = rng.chance(1, 4);
+    // warm-up so that the task baseline is stable
+    rt.block_on(async { tokio::time::sleep(Duration::from_millis(5)).await });
+    if !util::guarded(rt, close_only_case(rep, rng, fl, st, tr, targets, gap, ivl, live)) {
+      rep.inconclusive("closeonly case aborted by a harness panic".to_string());
+    }
+    for p in util::take_panics() {
+      if p.in_rzmq {
+        rep.violation(format!("panic|{}", util::panic_site(&p.location)), format!("panic at {}: {}", p.location, p.message), json!({"frames": p.backtrace_head}));
+      } else {
+        rep.inconclusive(format!("harness panic at {}: {}", p.location, p.message));
+      }
+    }
+  }
+  util::cleanup_ipc_dir();
+}
+
 fn gen_plan(rng: &mut Rng) -> Plan {
   let all = [
     (SocketType::Pull, SocketType::Push),
@@ -493,6 +718,12 @@ fn main() {
   let mut rng = Rng::new(args.seed.wrapping_mul(295075147).wrapping_add(args.shard as u64));
   if args.only.as_deref() == Some("rpqclose") {
     rpq_close_layer(&mut rep, &mut rng);
+    rep.merge_hooks();
+    rep.emit();
+    return;
+  }
+  if args.only.as_deref() == Some("closeonly") {
+    close_only_layer(&mut rep, &mut rng, &args);
     rep.merge_hooks();
     rep.emit();
     return;
